@@ -470,6 +470,26 @@ func ruleRefill(p *Prog, r *RuleResult) {
 					}
 				}
 				if !okExit {
+					// an exit that goes straight to a return carrying a definite error is an error exit too
+					// (the retry budget returning io.ErrNoProgress instead of storing it in the loop's error variable)
+					allErr := true
+					for _, sx := range lb.Succs {
+						if loop[sx] {
+							continue
+						}
+						ret, isRet := sx.Instrs[len(sx.Instrs)-1].(*ssa.Return)
+						if !isRet {
+							allErr = false
+							continue
+						}
+						rv := rvals(ret)
+						if len(rv) == 0 || !isErrType(rv[len(rv)-1].Type()) || retMayBeNil(ret, len(rv)-1) {
+							allErr = false
+						}
+					}
+					okExit = allErr
+				}
+				if !okExit {
 					strayExit = p.IPos(ifi)
 				}
 			}
